@@ -1085,7 +1085,7 @@ impl World {
             let o = self.rng.usize(self.owners.len());
             self.owners[o].addr_new
         };
-        match self.rng.below(9) {
+        match self.rng.below(10) {
             0 => {
                 // swap request whose side total is zero
                 let pools = self.known_pools();
@@ -1226,6 +1226,24 @@ impl World {
                 let payload = vec![CoinData { covhash, value: CoinValue(0), denom: liq.1.coin_data.denom, additional_data: Bytes::new() }];
                 let tx = self.complete(TxKind::Normal, vec![mel, liq], payload, vec![], 0)?;
                 Some((tx, "degenerate:make-zero-liquidity-coin".into()))
+            }
+            8 => {
+                // a pool named with the "new custom token" pseudo-denomination: data = "" parses as NEWCUSTOM/MEL
+                let inputs = self.pick_inputs(&[Denom::Mel], 0);
+                let avail: u128 = inputs.iter().filter(|(_, c)| c.coin_data.denom == Denom::Mel).map(|(_, c)| c.coin_data.value.0).sum();
+                if avail < 4 {
+                    return None;
+                }
+                let v = self.amount(1 << 40);
+                let m = self.amount((avail / 2).min(MAX_COINVAL));
+                let kind = *self.rng.pick(&[TxKind::LiqDeposit, TxKind::LiqDeposit, TxKind::Swap]);
+                let payload = vec![
+                    CoinData { covhash, value: CoinValue(v), denom: Denom::NewCustom, additional_data: Bytes::new() },
+                    CoinData { covhash, value: CoinValue(m), denom: Denom::Mel, additional_data: Bytes::new() },
+                ];
+                let tx = self.complete(kind, inputs, payload, vec![], 0)?;
+                self.register_pool_bytes(b"");
+                Some((tx, format!("degenerate:pool-request-naming-the-newcustom-pseudo-denomination kind={}", kind)))
             }
             _ => {
                 // swap whose input side is the maximum coin value
